@@ -218,7 +218,7 @@ def implicit_names(forest, parent, inline):
     """an element written with attributes but no name gets the documented implicit name for its parent"""
     for el in forest:
         if not el['name'] and not el['mentions'] and el['text'] is not None:
-            implicit_names(el['kids'], parent, inline)      # a text node is transparent: its children (possible through an alias only) see its parent
+            implicit_names(el['kids'], None, inline)      # children of a text node (possible through an alias only): their parent has no name, hence `div`
             continue                                   # a text-only node `{text}` is not an element and gets no name
         if not el['name']:
             p = (parent or '').lower()
